@@ -570,6 +570,9 @@ func (t *vTimeouts) addNewTimeOut(ctx context.Context, d time.Duration, id strin
 type vStore struct {
 	w    *vWorld
 	recs map[string]*SwapStateMachine
+	// nativeDelay: a write takes this long in native runs (a real bbolt write syncs to disk), so that
+	// goroutines the code under test started meanwhile get going, as the logical goroutines do symbolically
+	nativeDelay time.Duration
 }
 
 // put stores a record (used by harness code that seeds the store directly).
@@ -594,6 +597,9 @@ func (s *vStore) UpdateData(data *SwapStateMachine) error {
 	if s.w.fault("store.err") {
 		s.w.storeFailed = true
 		return errors.New("store failed")
+	}
+	if s.nativeDelay > 0 && !zzverif.Symbolic() {
+		time.Sleep(s.nativeDelay)
 	}
 	// the real store marshals the complete record: it reads every field of the swap data
 	zzverif.RaceTouch(data.Data, false)
